@@ -48,6 +48,12 @@ var replacements = map[string]string{
 	"github.com/ethereum/go-ethereum/core/types.Sender":                          "TxSender",
 	"(*github.com/ethereum/go-ethereum/core/types.Transaction).Hash":             "TxHash",
 	"(*github.com/ethereum/go-ethereum/core/types.Transaction).UnmarshalBinary":  "TxUnmarshalBinary",
+	"github.com/ethereum/go-ethereum/core/types.recoverPlain":                    "RecoverPlain",
+	"(github.com/ethereum/go-ethereum/core/types.londonSigner).Hash":             "SignerHash",
+	"(github.com/ethereum/go-ethereum/core/types.eip2930Signer).Hash":            "SignerHash",
+	"(github.com/ethereum/go-ethereum/core/types.EIP155Signer).Hash":             "SignerHash",
+	"(github.com/ethereum/go-ethereum/core/types.HomesteadSigner).Hash":          "SignerHash",
+	"(github.com/ethereum/go-ethereum/core/types.FrontierSigner).Hash":           "SignerHash",
 
 	// ABI codec and typed-metadata JSON of the custom precompiles (reflection)
 	"(github.com/EscanBE/evermint/v12/x/cpc/abi.CustomPrecompiledContractInfo).UnpackMethodInput": "AbiUnpackMethodInput",
